@@ -300,7 +300,7 @@ func body(c *vk.Ctx) {
 	for pi := range f.recs {
 		for _, au := range authors {
 			for ci, cite := range cites {
-				for _, mode := range []string{"alone", "mid-batch"} {
+				for _, mode := range []string{"alone", "mid-batch", "alone-from-non-head", "mid-batch-from-non-head"} {
 					pi, au, ci, cite, mode := pi, au, ci, cite, mode
 					run(func() {
 						ok := positionCase(c, f, pi, au, ci, cite, mode)
@@ -317,7 +317,7 @@ func body(c *vk.Ctx) {
 		}
 	}
 	wg.Wait()
-	c.Bound("A1_cases", (len(f.recs))*len(authors)*len(cites)*2)
+	c.Bound("A1_cases", (len(f.recs))*len(authors)*len(cites)*4)
 	c.Require(accepted > 10 && rejected > 10, "vacuity: A1 accepted %d and rejected %d cases", accepted, rejected)
 	// ---- A2 -------------------------------------------------------------------------------------------
 	vals := vk.Pick(c, 6, 255)
@@ -334,6 +334,18 @@ func positionCase(c *vk.Ctx, f *fixture, pi int, au string, ci int, cite string,
 		c.Violation("authorised-change-rejected:author=O:base", fmt.Sprintf("A1: the owner's base change citing r%d was rejected: %v", pi, err), acase{"A1", fmt.Sprintf("base r%d", pi)})
 		return
 	}
+	var otherHeads []string // heads of the tree that the case batch does not replace
+	if strings.HasSuffix(mode, "-from-non-head") {
+		// the case change branches from a change that is no longer a head: the owner has already continued from base
+		mode = strings.TrimSuffix(mode, "-from-non-head")
+		top := w.build(f.sim.Acc("O"), f.recs[len(f.recs)-1], []string{base.Id}, f.root.Id, "top", 1700000150)
+		if _, err := w.add([]string{top.Id}, top); err != nil {
+			c.Violation("authorised-change-rejected:author=O:top", fmt.Sprintf("A1: the owner's second change on top of the base citing r%d was rejected: %v", pi, err), acase{"A1", fmt.Sprintf("top r%d", pi)})
+			return
+		}
+		otherHeads = []string{top.Id}
+		mode += "+non-head-parent"
+	}
 	author := f.sim.Acc(au)
 	want := ci < len(f.recs) && f.canWrite[au][ci] && ci >= pi
 	label := fmt.Sprintf("author=%s cites=r%d parent-cites=r%d %s", au, ci, pi, mode)
@@ -345,13 +357,15 @@ func positionCase(c *vk.Ctx, f *fixture, pi int, au string, ci int, cite string,
 	var err error
 	var res objecttree.AddResult
 	panicked, what := vk.Recover(func() {
-		if mode == "alone" {
-			res, err = w.add([]string{tc.Id}, tc)
+		if strings.HasPrefix(mode, "alone") {
+			heads := append([]string{tc.Id}, otherHeads...)
+			sort.Strings(heads)
+			res, err = w.add(heads, tc)
 		} else {
 			// [valid sibling, case, valid child of the sibling]
 			v1 := w.build(f.sim.Acc("O"), f.recs[len(f.recs)-1], []string{base.Id}, f.root.Id, "valid-1", 1700000201)
 			v2 := w.build(f.sim.Acc("O"), f.recs[len(f.recs)-1], []string{v1.Id}, f.root.Id, "valid-2", 1700000202)
-			heads := []string{tc.Id, v2.Id}
+			heads := append([]string{tc.Id, v2.Id}, otherHeads...)
 			sort.Strings(heads)
 			res, err = w.add(heads, v1, tc, v2)
 		}
@@ -391,7 +405,7 @@ func positionCase(c *vk.Ctx, f *fixture, pi int, au string, ci int, cite string,
 	for _, fd := range w.judgeState(nil) {
 		c.Violation(fd.key, "A1 "+label+": "+fd.what, rep)
 	}
-	if c.Shard == 0 && pi == 2 && mode == "alone" && (ci == 1 || ci == 2 || ci == 3) {
+	if c.Shard == 0 && pi == 2 && strings.HasPrefix(mode, "alone") && (ci == 1 || ci == 2 || ci == 3) {
 		c.Sample(map[string]any{"family": "A1", "case": label, "verdict": verdict, "error": fmt.Sprint(err)})
 	}
 	return gotAccepted
